@@ -43,8 +43,8 @@ COMPONENTS = {
              "wire variant: network, timers, scripted application (real QuicConnection x2, independent wire decoder)"],
 }
 PLAN = {
-    "quick": {"budget_s": 50, "max_runs": 10 ** 7, "variants": ["recovery", "wire"]},
-    "thorough": {"budget_s": 900, "max_runs": 10 ** 9, "variants": ["recovery", "wire"]},
+    "quick": {"budget_s": 50, "max_runs": 10 ** 7, "variants": ["recovery", "wire", "wire_resumed"]},
+    "thorough": {"budget_s": 900, "max_runs": 10 ** 9, "variants": ["recovery", "wire", "wire_resumed"]},
 }
 
 _A = {}
@@ -419,6 +419,10 @@ def run_one(seed, tier="quick", variant=None, replay=None):
     bootstrap.DET.reseed(seed)
     if variant == "recovery":
         return run_recovery(seed, tier, replay)
+    if variant == "wire_resumed":
+        from checks.c08_wire import run_wire_resumed
+
+        return run_wire_resumed(seed, tier, replay)
     if variant == "wire":
         from checks.c08_wire import run_wire
 
